@@ -281,6 +281,8 @@ def run(rep):
     from common import include
     include(rep, 'c03', ('C03.',), 'visibility')
     include(rep, 'c04', ('C04.R7', 'C04.R3', 'C04.groups-ordered-map'), 'layout-order')
+    # "each resource the entry point uses exists at its @group/@binding": the collected group map holds every variable under its own group and index
+    include(rep, 'c11', ('C11.R2',), 'exists-at-group-binding')
 
 
 def fmt_exp(e):
